@@ -33,7 +33,7 @@ def run(ck):
             g = dict(g); g["den"] = 8
             g["calls"] = [pcall(a, "list", extra=False) for a in FIT4]
             groups.append(g); ck.cat("dyadic")
-    fam = gen.pack_families(ck.rng, 300 if q else 6000, maxn=12)
+    fam = gen.pack_families(ck.rng, 300 if q else 15000, maxn=12)
     for g in fam:
         g = dict(g)
         g["vals"] = g["vals"][:12]
@@ -44,7 +44,7 @@ def run(ck):
                "packings up to 300 items in random order with TLC-certified optimum; classical bad families. non-trivial = distinct (sequence, C) with >=2 items")
     run_pack_groups(ck, groups, {"C09"}, "C09 any-fit invariant and bounds", chunk=6000)
     # large instances: planted perfect packings (certificate => OPT = total / C), judged by JCertPack
-    big = gen.planted_packings(ck.rng, 40 if q else 600, maxitems=80 if q else 300)
+    big = gen.planted_packings(ck.rng, 40 if q else 2500, maxitems=80 if q else 300)
     big += [dict(ff17_family(m), cert=[]) for m in (1, 2)] + [dict(ffd_family(m), cert=[]) for m in (1, 2)]
     for g in big:
         g["calls"] = [pcall(a, "list", extra=False) for a in FIT4]
